@@ -102,6 +102,34 @@ func c04WriteAt(fsys *FileSystem, name string, flag int, off int64, data []byte)
 	c04AllowPanic()
 	vp.Assert(err == nil, "write accepted")
 	vp.Assert(n == len(data), "write complete")
+	c04ExtInvariant(f.(*File))
+}
+
+// c04ExtInvariant: the invariant under which read_map / write_map are proved, asserted on the
+// handle after every scenario write: extents start at file block 0, follow each other without
+// gap or overlap in file space, have count >= 1, cover ceil(size/blocksize) blocks, lie inside
+// the volume and do not overlap each other on disk.
+func c04ExtInvariant(fl *File) {
+	if !vp.IsConst(int64(len(fl.extents))) {
+		return // structure not decided on this path (symbolic allocation): covered by the read-back
+	}
+	sb := fl.filesystem.superblock
+	bs := uint64(sb.blockSize)
+	var next uint64
+	for i, e := range fl.extents {
+		vp.Assert(uint64(e.fileBlock) == next, "extents are contiguous in file space from block 0")
+		vp.Assert(e.count >= 1, "extent not empty")
+		vp.Assert(e.startingBlock >= uint64(sb.firstDataBlock), "extent starts inside the volume")
+		vp.Assert(e.startingBlock+uint64(e.count) <= sb.blockCount, "extent ends inside the volume")
+		for j := 0; j < i; j++ {
+			o := fl.extents[j]
+			before := e.startingBlock+uint64(e.count) <= o.startingBlock
+			after := o.startingBlock+uint64(o.count) <= e.startingBlock
+			vp.Assert(before != after, "extents do not overlap on disk")
+		}
+		next += uint64(e.count)
+	}
+	vp.Assert(next*bs >= fl.size, "extents cover the file size")
 }
 
 // c04Window declares the device window for data writes at symbolic offsets: the first free
